@@ -253,8 +253,8 @@ class BcWorld(World):
             un = op["unknowns"]
             idx = [self.un.index(u) for u in un]
             dofs = (nodes[:, None] * len(self.un) + np.array(idx)[None, :]).ravel()
-            if (self.n_lagrange or not op.get("dup_ok")) and set(dofs.tolist()) & set(self.dir_dofs):
-                return "skip"  # duplicated dofs only where the sum convention is documented
+            if not op.get("dup_ok") and set(dofs.tolist()) & set(self.dir_dofs):
+                return "skip"  # (half of the conditions may overlap earlier ones: the dof then holds the sum of the entries)
             vals, ref = self._values(op["vals"], nodes, len(un))
             with ctx.sut():
                 sim.add_dirichlet(nodes, vals, un)
@@ -297,8 +297,6 @@ class BcWorld(World):
             free_nodes = [n for n in self.used_nodes if not any((n * len(self.un) + c) in set(self.dir_dofs) for c in range(len(self.un)))]
             if len(free_nodes) < 2:
                 return "skip"
-            if len(self.dir_dofs) != len(set(self.dir_dofs)):
-                return "skip"
             n2 = rng.choice(free_nodes, size=2, replace=False)
             u = self.un[int(rng.integers(len(self.un)))]
             coefs = np.round(rng.uniform(0.5, 2, 2) * rng.choice([-1, 1], 2), 3)
@@ -314,8 +312,6 @@ class BcWorld(World):
 
         if name == "connection":
             if self.actor != "Beam":
-                return "skip"
-            if len(self.dir_dofs) != len(set(self.dir_dofs)):
                 return "skip"
             with ctx.sut():
                 nodes = np.asarray(sim.mesh.Nodes_Point(self.pts[1]), dtype=int)
